@@ -34,12 +34,13 @@ import (
 )
 
 type Step struct {
-	Kind      string // fresh | resubmit | advance | sequence
+	Kind      string // fresh | resubmit | advance | sequence | foreign (a fresh chain whose entry another front end logged before, with SCT extensions)
 	Spec      *world.ChainSpec
 	Ref       int   // resubmit: index (mod count) into earlier fresh submissions
 	FlipRoot  bool  // resubmit with the root included / omitted the other way round
 	AdvanceNs int64 // advance
 	SeqN      int   // sequence: how many pending leaves (-1 all)
+	Ext       []byte // foreign: the CtExtensions of the stored entry
 }
 
 type Case struct {
@@ -52,6 +53,9 @@ type Case struct {
 	// BrokenWrites lists (as indices into the sequence of submissions) requests whose client hangs up: the
 	// response write fails. Whatever happens to them, later answers must be untouched by it.
 	BrokenWrites []int
+	// DupAsError: the backend reports a duplicate as a gRPC AlreadyExists error instead of returning the stored
+	// leaf; the front end then has no stored timestamp to repeat and must not answer 200 with a new one.
+	DupAsError bool
 	// BodyStyle re-spells the JSON request body without changing what it says (1: indented with white space
 	// around it, 2: unknown members before and after "chain", 3: "/" and "+" of the base64 text written as JSON
 	// escapes, 4: the member name written with an escape). Dribble: the body arrives with unknown length,
@@ -82,6 +86,7 @@ func gen(t *rapid.T) Case {
 		c.BodyStyle = rapid.IntRange(1, 4).Draw(t, "bodystyle")
 	}
 	c.Dribble = rapid.IntRange(0, 3).Draw(t, "dribble") == 0
+	c.DupAsError = rapid.IntRange(0, 7).Draw(t, "duperr") == 0
 	n := rapid.IntRange(1, 8).Draw(t, "steps")
 	fresh := 0
 	for i := 0; i < n; i++ {
@@ -99,6 +104,11 @@ func gen(t *rapid.T) Case {
 		case k <= 8:
 			c.Steps = append(c.Steps, Step{Kind: "advance", AdvanceNs: signed(t, rapid.Int64Range(1, 90e9).Draw(t, "adv"))})
 		default:
+			if rapid.Bool().Draw(t, "foreign") {
+				s := world.GenSpecX(t, fmt.Sprintf("f%d", i))
+				c.Steps = append(c.Steps, Step{Kind: "foreign", Spec: &s, AdvanceNs: rapid.Int64Range(1, 90e9).Draw(t, "ago"), Ext: rapid.SliceOfN(rapid.Byte(), 0, 40).Draw(t, "ext")})
+				continue
+			}
 			c.Steps = append(c.Steps, Step{Kind: "sequence", SeqN: rapid.IntRange(-1, 3).Draw(t, "seqn")})
 		}
 	}
@@ -247,6 +257,7 @@ func check(t *testing.T, c Case) (v harness.Verdict) {
 	}
 	logKey := keys.Pick(c.LogKeyKind, c.LogKeyIdx)
 	be := reflog.New(6962, 1)
+	be.DupAsRPCError = c.DupAsError
 	clock := ctfex.NewClock(time.Unix(0, c.ClockNs))
 	o := ctfex.Opts{LogKey: logKey, Roots: world.Roots(), Backend: be, Clock: clock, Inst: quotaOpts(c.QuotaUsers)}
 	var store *memstore.Store
@@ -280,6 +291,7 @@ func check(t *testing.T, c Case) (v harness.Verdict) {
 		ts    uint64
 	}
 	var firsts []first
+	queuedUnanswered := map[string]bool{}
 	if c.LogKeyKind[0] == 'r' {
 		v.Class("rsa-log-key")
 	}
@@ -308,7 +320,15 @@ func check(t *testing.T, c Case) (v harness.Verdict) {
 		}
 		rsp := inst.Post(path, styledBody(chain, c.BodyStyle))
 		if rsp.Status != 200 {
+			if c.DupAsError && (dupOf != nil || queuedUnanswered[string(b.Leaf.DER)]) {
+				// the backend gave no stored leaf: refusing is the only way not to invent a timestamp
+				v.Class("duplicate-reported-as-rpc-error-refused")
+				return
+			}
 			if c.LogKeyKind == "ed25519" && rsp.Status >= 500 {
+				if len(be.CallsOf("QueueLeaf")) > nQueue {
+					queuedUnanswered[string(b.Leaf.DER)] = true // queued although no SCT could be signed
+				}
 				v.Class("ed25519-log-key-refused")
 				return
 			}
@@ -474,6 +494,30 @@ func check(t *testing.T, c Case) (v harness.Verdict) {
 				}
 			}
 			submit(i, f.built, chain, &f)
+		case "foreign":
+			// another front end of this log queued the entry some time ago; its stored leaf carries SCT extensions
+			b := world.Build(*s.Spec)
+			known := false
+			for k := range firsts {
+				known = known || bytes.Equal(firsts[k].built.Leaf.DER, b.Leaf.DER)
+			}
+			ms := clock.Now().UnixMilli() - s.AdvanceNs/1e6
+			if known || ms < 0 || c.Indirect {
+				continue
+			}
+			lv, err := rfc6962.EncodeLeaf(rfc6962.Leaf{Timestamp: uint64(ms), Entry: b.Entry(), Extensions: s.Ext})
+			if err != nil {
+				t.Fatalf("reference leaf: %v", err)
+			}
+			idh := sha256.Sum256(b.Leaf.DER)
+			be.Preset(&trillian.LogLeaf{LeafValue: lv, ExtraData: b.ExtraData(), LeafIdentityHash: idh[:]})
+			f := first{b, uint64(ms)}
+			firsts = append(firsts, f)
+			v.Class("entry-logged-by-another-front-end")
+			if len(s.Ext) > 0 {
+				v.Class("stored-entry-with-sct-extensions")
+			}
+			submit(i, b, b.Submit, &f)
 		case "advance":
 			if clock.Now().Add(time.Duration(s.AdvanceNs)).UnixNano() >= 0 {
 				clock.Add(time.Duration(s.AdvanceNs))
